@@ -162,6 +162,20 @@ func init() {
 			for i, sc := range cliConcurrentScenarios() {
 				cliExplore(c, "C10", sc, pb, true, fmt.Sprintf("S%d", i+1))
 			}
+			// many transactions expiring at the same tick (the agent sizes its collect scratch for 100)
+			if c.Shard == 0 {
+				for _, n := range []int{99, 100, 101, 250} {
+					for _, nr := range []bool{false, true} {
+						var h []cliEv
+						for i := 0; i < n; i++ {
+							h = append(h, cliEv{K: "start", I: 10 + i})
+						}
+						h = append(h, cliEv{K: "tick", Arg: 2})
+						sc := cliScenario{Opts: cliOpts{NoRetransmit: nr}, Threads: [][]cliEv{h}, Sequential: true, Epilogue: "drain+close"}
+						cliExplore(c, "C10", sc, 0, false, "many")
+					}
+				}
+			}
 			c.Extra("history_depth", float64(depth))
 			c.Extra("preemption_bound", float64(pb))
 			c.Extra("history_alphabet", fmt.Sprint(alpha))
